@@ -59,8 +59,9 @@ def _max_id(n):
     return m
 
 
-def _rename(n, off, suffix, callsp, origin):
-    """fresh ids, suffixed local names, spans moved to the call site (in place, on a deep copy)"""
+def _rename(n, off, suffix, callsp, origin, visible=None):
+    """fresh ids, spans moved to the call site (in place, on a deep copy); a local of the helper gets the suffix only if its
+    name is visible at the call site (visible=None: always)"""
     stack = [n]
     while stack:
         x = stack.pop()
@@ -70,12 +71,12 @@ def _rename(n, off, suffix, callsp, origin):
             for k in ("id", "target"):
                 if isinstance(x.get(k), int):
                     x[k] += off
-            if x.get("k") == "Bind" and x.get("name") != "self":
+            if x.get("k") == "Bind" and x.get("name") != "self" and (visible is None or x["name"] in visible):
                 x["name"] = x["name"] + suffix
             r = x.get("res")
             if isinstance(r, dict) and isinstance(r.get("local"), int):
                 r["local"] += off
-                if r.get("name") != "self":
+                if r.get("name") != "self" and (visible is None or r.get("name") in visible):
                     r["name"] = r["name"] + suffix
             sp = x.get("sp")
             if isinstance(sp, list) and len(sp) >= 7:
@@ -88,6 +89,71 @@ def _rename(n, off, suffix, callsp, origin):
                     stack.append(v)
         elif isinstance(x, list):
             stack.extend(x)
+
+
+def _ends_in_ret(blk):
+    """(statements before the return, returned expression or None) if the block is `{ ..; return [e]; }`, else None"""
+    if blk["k"] == "Ret":
+        return [], blk.get("e")
+    if blk["k"] != "Block":
+        return None
+    last = blk.get("expr")
+    stmts = list(blk["stmts"])
+    if last is None and stmts:
+        last = stmts.pop()
+    if last is None or last["k"] != "Ret":
+        return None
+    return stmts, last.get("e")
+
+
+def fold_guard_returns(body):
+    """`if c { ..; return v; } rest` at the top level of a function body is `if c { ..; v } else { rest }`. Returns the body
+    with every such guard clause folded, or None if a `return` remains anywhere else (or the body's tail is itself a return
+    of a different shape)."""
+    if not any(x["k"] == "Ret" for x in hirq.walk(body)):
+        return body
+    stmts = list(body["stmts"])
+    tail = body.get("expr")
+    # a trailing `return e;` statement is the tail expression
+    if tail is None and stmts and stmts[-1]["k"] == "Ret":
+        r = stmts.pop()
+        tail = r.get("e")
+    i = len(stmts) - 1
+    while i >= 0:
+        st = stmts[i]
+        if st["k"] == "If" and "e" not in st:
+            er = _ends_in_ret(st["t"])
+            if er is not None:
+                then_stmts, val = er
+                if any(y["k"] == "Ret" for s_ in then_stmts for y in hirq.walk(s_)) or (val is not None and any(y["k"] == "Ret" for y in hirq.walk(val))):
+                    return None
+                rest = {"k": "Block", "stmts": stmts[i + 1:], "sp": list(st["sp"])}
+                if tail is not None:
+                    rest["expr"] = tail
+                tb = {"k": "Block", "stmts": then_stmts, "sp": list(st["t"].get("sp", st["sp"]))}
+                if val is not None:
+                    tb["expr"] = val
+                new_if = dict(st)
+                if not then_stmts and val is None:
+                    # `if c { return; } rest` is `if !c { rest }`
+                    new_if["c"] = {"k": "Unary", "op": "!", "e": st["c"], "ty": "bool", "sp": list(st["c"].get("sp", st["sp"]))}
+                    new_if["t"] = rest
+                    new_if.pop("e", None)
+                else:
+                    new_if["t"] = tb
+                    new_if["e"] = rest
+                stmts = stmts[:i]
+                tail = new_if
+        i -= 1
+    out = dict(body)
+    out["stmts"] = stmts
+    if tail is not None:
+        out["expr"] = tail
+    elif "expr" in out:
+        del out["expr"]
+    if any(x["k"] == "Ret" for x in hirq.walk(out)):
+        return None
+    return out
 
 
 class Inliner:
@@ -109,7 +175,7 @@ class Inliner:
         if body["k"] != "Block":
             return None
         for x in hirq.walk(body):
-            if x["k"] == "Ret" or (x["k"] == "Match" and str(x.get("src", "")).startswith("TryDesugar")):
+            if x["k"] == "Match" and str(x.get("src", "")).startswith("TryDesugar"):
                 return None
             if x["k"] == "Closure" and any(y["k"] == "Ret" for y in hirq.walk(x)):
                 return None
@@ -121,7 +187,8 @@ class Inliner:
             return self.memo[fid]
         f = self.facts.fns[fid]
         root = copy.deepcopy(f["hir_raw"])
-        if len(stack) <= MAX_DEPTH:
+        root = fold_guard_returns(root)
+        if root is not None and len(stack) <= MAX_DEPTH:
             self.rewrite(root, f, stack)
         self.memo[fid] = root
         return root
@@ -135,7 +202,7 @@ class Inliner:
             return e.get("callee"), list(e["args"])
         return None
 
-    def expand(self, call, counter, stack):
+    def expand(self, call, counter, stack, visible=None):
         """(statements, tail or None) replacing `call`, or None if it is not inlined"""
         info = self._call_info(call)
         if info is None:
@@ -151,7 +218,12 @@ class Inliner:
         if params and params[0]["pat"].get("k") == "Bind" and params[0]["pat"].get("name") == "self" and not _is_self(actual[0]):
             self.kept[callee] = self.kept.get(callee, 0) + 1
             return None
-        body = copy.deepcopy(self.body_of(callee, stack + (callee,)))
+        b0 = self.body_of(callee, stack + (callee,))
+        if b0 is None:
+            # a `return` that is not a top-level guard clause: left as a call
+            self.kept[callee] = self.kept.get(callee, 0) + 1
+            return None
+        body = copy.deepcopy(b0)
         pats = copy.deepcopy([p["pat"] for p in params])
         off = counter[0]
         span = max(_max_id(body), _max_id(pats)) + 1
@@ -159,8 +231,8 @@ class Inliner:
         short = callee.split("::")[-1]
         suffix = "__" + short
         origin = {"fn": callee, "line": f["sp"][1] if isinstance(f.get("sp"), list) else None}
-        _rename(body, off, suffix, call["sp"], origin)
-        _rename(pats, off, suffix, call["sp"], origin)
+        _rename(body, off, suffix, call["sp"], origin, visible)
+        _rename(pats, off, suffix, call["sp"], origin, visible)
         stmts = []
         for p, a in zip(pats, actual):
             if p.get("k") == "Bind" and p.get("name") == "self":
@@ -172,18 +244,24 @@ class Inliner:
 
     def rewrite(self, root, fn, stack):
         counter = [max(_max_id(root), _max_id(fn.get("params", []))) + 1]
+        env = scope_env(root, fn.get("params", []))
         blocks = [x for x in hirq.walk(root) if x["k"] == "Block"]
         for b in blocks:
+            vis = set(env.get(id(b), ()))
             new = []
             for st in b["stmts"]:
-                rep = self._stmt(st, counter, stack)
+                rep = self._stmt(st, counter, stack, vis)
                 if rep is None:
                     new.append(st)
+                    rep = [st]
                 else:
                     new.extend(rep)
+                for r_ in rep:
+                    if r_.get("k") == "Let":
+                        vis |= {q["name"] for q in _binds(r_["pat"], [])}
             b["stmts"] = new
             if "expr" in b and b["expr"]["k"] in ("Call", "MethodCall"):
-                r = self.expand(b["expr"], counter, stack)
+                r = self.expand(b["expr"], counter, stack, vis)
                 if r is not None:
                     stmts, tail = r
                     b["stmts"].extend(stmts)
@@ -198,22 +276,40 @@ class Inliner:
                 if c and self.candidate(c) is not None:
                     self.kept[c] = self.kept.get(c, 0) + 1
 
-    def _stmt(self, st, counter, stack):
+    def _stmt(self, st, counter, stack, vis=None):
         k = st["k"]
         if k in ("Call", "MethodCall"):
-            r = self.expand(st, counter, stack)
+            r = self.expand(st, counter, stack, vis)
             if r is None:
                 return None
             stmts, tail = r
             return stmts + ([tail] if tail is not None else [])
         if k in ("Assign", "AssignOp") and st["r"]["k"] in ("Call", "MethodCall"):
-            r = self.expand(st["r"], counter, stack)
+            r = self.expand(st["r"], counter, stack, vis)
             if r is None or r[1] is None:
                 return None
             st["r"] = r[1]
             return r[0] + [st]
+        # the call is the first thing the statement evaluates: scrutinee of a match, condition of a (source-level) if
+        host = None
+        if k == "Let" and "init" in st and "else" not in st and st["init"]["k"] == "Match" and st["init"].get("src") == "Normal":
+            host = (st["init"], "e")
+        elif k == "Match" and st.get("src") == "Normal":
+            host = (st, "e")
+        elif k in ("Assign",) and st["r"]["k"] == "Match" and st["r"].get("src") == "Normal":
+            host = (st["r"], "e")
+        elif k == "If" and not hirq.from_expansion(st):
+            host = (st, "c")
+            if st["c"]["k"] == "Unary" and st["c"].get("op") == "!":
+                host = (st["c"], "e")
+        if host is not None and host[0][host[1]]["k"] in ("Call", "MethodCall"):
+            r = self.expand(host[0][host[1]], counter, stack, vis)
+            if r is not None and r[1] is not None:
+                host[0][host[1]] = r[1]
+                return r[0] + [st]
+            return None
         if k == "Let" and "init" in st and st["init"]["k"] in ("Call", "MethodCall") and "else" not in st:
-            r = self.expand(st["init"], counter, stack)
+            r = self.expand(st["init"], counter, stack, vis)
             if r is None or r[1] is None:
                 return None
             st["init"] = r[1]
@@ -239,11 +335,54 @@ def _binds(p, out):
     return out
 
 
-def disambiguate(fn):
+def scope_env(root, params):
+    """names of the locals visible on entry to each block: {id(block): frozenset(names)}"""
+    out = {}
+
+    def names(pat):
+        return {b["name"] for b in _binds(pat, [])}
+
+    def visit(n, env):
+        k = n.get("k")
+        if k == "Block":
+            out[id(n)] = frozenset(env)
+            e2 = set(env)
+            for st in n["stmts"]:
+                if st.get("k") == "Let":
+                    if "init" in st:
+                        visit(st["init"], e2)
+                    e2 |= names(st["pat"])
+                else:
+                    visit(st, e2)
+            if "expr" in n:
+                visit(n["expr"], e2)
+        elif k == "Match":
+            visit(n["e"], env)
+            for a in n["arms"]:
+                e2 = set(env) | names(a["pat"])
+                if isinstance(a.get("guard"), dict):
+                    visit(a["guard"], e2)
+                visit(a["body"], e2)
+        elif k == "Closure":
+            e2 = set(env)
+            for p_ in n.get("params", []):
+                e2 |= names(p_)
+            visit(n["body"], e2)
+        else:
+            for c in hirq.children(n):
+                visit(c, env)
+    env0 = set()
+    for p_ in params:
+        env0 |= names(p_["pat"])
+    visit(root, env0)
+    return out
+
+
+def disambiguate(fn, root=None):
     """Shadowing: a binding introduced while another binding of the same name is in scope gets the name `<name>__s<k>` (and so
     do its uses). Normal forms print locals by name; without this `let mut k = ..` inside a block guarded on an outer `k` would
     be indistinguishable from it. Bindings in disjoint scopes keep their names. Returns the number of renamed bindings."""
-    root = fn["hir_raw"]
+    root = root if root is not None else fn["hir_raw"]
     rename = {}
     count = {}
 
@@ -321,6 +460,98 @@ def disambiguate(fn):
     return len(rename)
 
 
+def split_tuple_lets(root):
+    """`let (a, b, c) = (e1, e2, e3);` is `let a = e1; let b = e2; let c = e3;` (same evaluation order): the analyses are
+    field-sensitive on tuple components only through destructuring of a call result, and an inlined helper that returns a
+    tuple literal produces exactly this form. Returns the number of lets split."""
+    n = 0
+    for b in [x for x in hirq.walk(root) if x["k"] == "Block"]:
+        new = []
+        for st in b["stmts"]:
+            if st["k"] == "Let" and st["pat"].get("k") == "Tuple" and "init" in st and "else" not in st:
+                ini = st["init"]
+                while ini["k"] == "Block" and not ini["stmts"] and "expr" in ini:
+                    ini = ini["expr"]
+                subs = st["pat"].get("subs", [])
+                if ini["k"] == "Tup" and len(ini.get("es", [])) == len(subs) and all(q.get("k") in ("Bind", "Wild") and "sub" not in q for q in subs):
+                    for q, e in zip(subs, ini["es"]):
+                        new.append({"k": "Let", "pat": q, "init": e, "sp": list(st["sp"])})
+                    n += 1
+                    continue
+            new.append(st)
+        b["stmts"] = new
+    return n
+
+
+def _pure(e):
+    """no call that takes something by &mut, no assignment, no macro expansion: evaluating it twice is the same as once"""
+    for x in hirq.walk(e):
+        if x["k"] in ("Assign", "AssignOp", "Closure", "Loop", "Ret", "Break", "Continue"):
+            return False
+        if x["k"] == "MethodCall" and x.get("recv_ty", "").startswith("&mut "):
+            return False
+        if x["k"] == "AddrOf" and x.get("mut"):
+            return False
+        if x["k"] == "Call" and x.get("callee", "").split("::")[-1] not in ("Some", "Ok", "Err"):
+            return False
+    return True
+
+
+def _bool_lit(p):
+    if p.get("k") != "Lit":
+        return None
+    d = p.get("dbg", "")
+    return True if "Bool(true)" in d else False if "Bool(false)" in d else None
+
+
+def normalise_bool_match(root):
+    """`match c { true => a, false => b }` is `if c { a } else { b }`"""
+    n = 0
+    for x in hirq.walk(root):
+        if x["k"] == "Match" and x.get("src") == "Normal" and len(x.get("arms", [])) == 2 and not any(a.get("guard") for a in x["arms"]):
+            vals = [_bool_lit(a["pat"]) for a in x["arms"]]
+            wild = [a["pat"].get("k") == "Wild" for a in x["arms"]]
+            if vals[0] is not None and (vals[1] == (not vals[0]) or wild[1]):
+                t_arm = x["arms"][0] if vals[0] else x["arms"][1]
+                f_arm = x["arms"][1] if vals[0] else x["arms"][0]
+                cond, tb, fb = x["e"], t_arm["body"], f_arm["body"]
+                keep = {k: x[k] for k in ("id", "ty", "sp") if k in x}
+                x.clear()
+                x.update(keep)
+                x.update({"k": "If", "c": cond, "t": tb, "e": fb})
+                n += 1
+    return n
+
+
+def distribute_tuple_if(root):
+    """`let (a, b) = if c { (x1, y1) } else { (x2, y2) };` with a pure c is `let a = if c {x1} else {x2}; let b = if c {y1} else {y2};`"""
+    n = 0
+
+    def tup(e):
+        while e["k"] == "Block" and not e["stmts"] and "expr" in e:
+            e = e["expr"]
+        return e if e["k"] == "Tup" else None
+    for b in [x for x in hirq.walk(root) if x["k"] == "Block"]:
+        new = []
+        for st in b["stmts"]:
+            if st["k"] == "Let" and st["pat"].get("k") == "Tuple" and "init" in st and "else" not in st:
+                ini = st["init"]
+                while ini["k"] == "Block" and not ini["stmts"] and "expr" in ini:
+                    ini = ini["expr"]
+                subs = st["pat"].get("subs", [])
+                if ini["k"] == "If" and "e" in ini and _pure(ini["c"]) and all(q.get("k") in ("Bind", "Wild") and "sub" not in q for q in subs):
+                    ta, tb_ = tup(ini["t"]), tup(ini["e"])
+                    if ta is not None and tb_ is not None and len(ta["es"]) == len(subs) == len(tb_["es"]) and all(_pure(e) for e in ta["es"] + tb_["es"]):
+                        for i, q in enumerate(subs):
+                            new.append({"k": "Let", "pat": q, "sp": list(st["sp"]),
+                                        "init": {"k": "If", "c": copy.deepcopy(ini["c"]), "t": ta["es"][i], "e": tb_["es"][i], "sp": list(ini["sp"]), "ty": q.get("ty", "")}})
+                        n += 1
+                        continue
+            new.append(st)
+        b["stmts"] = new
+    return n
+
+
 def prepare(facts):
     """rewrite fn["hir"] of every function in place (the extractor's tree stays in fn["hir_raw"])"""
     if getattr(facts, "inliner", None) is not None:
@@ -337,6 +568,10 @@ def prepare(facts):
     for fid, f in facts.fns.items():
         if "hir_raw" not in f:
             continue
+        pass
+    for fid, f in facts.fns.items():
+        if "hir_raw" not in f:
+            continue
         # cheap pre-test: does the body call any candidate at all?
         if not any(x["k"] in ("Call", "MethodCall") and x.get("callee") and x["callee"] not in inl.inv and x["callee"] in facts.fns
                    for x in hirq.walk(f["hir_raw"])):
@@ -344,6 +579,19 @@ def prepare(facts):
         root = copy.deepcopy(f["hir_raw"])
         inl.rewrite(root, f, (fid,))
         f["hir"] = root
+        f["_inlined_here"] = True
+    # source-level normalisations (pmh/normalise.py) on every function; a function nothing applies to keeps its tree
+    from . import normalise
+    inl.normalised = 0
+    for fid, f in facts.fns.items():
+        if "hir" not in f:
+            continue
+        root = f["hir"] if f.get("_inlined_here") else copy.deepcopy(f["hir"])
+        k_ = normalise.normalise(root)
+        if k_ or f.get("_inlined_here"):
+            disambiguate(f, root)      # a later binding may shadow a local floated outwards or brought in by a helper
+            f["hir"] = root
+            inl.normalised += k_
     # a helper is absorbed when every call to it was inlined
     inl.absorbed = {c for c in inl.inlined if inl.kept.get(c, 0) == 0}
     return inl
